@@ -232,6 +232,24 @@ def cyc_list(vals, M):
     return out
 
 
+def de_coeffs(E, nsym):
+    def coeffs(e, fname):
+        out = {}
+        for t in sp.Add.make_args(sp.expand(e)):
+            if t == 0:
+                continue
+            c, rest = t.as_coeff_Mul()
+            if not (rest.is_Function and rest.func.__name__ in ('x', 'y')):
+                raise ValueError('unexpected term %s' % t)
+            if rest.func.__name__ != fname:
+                continue
+            m = str(int(sp.expand(nsym - rest.args[0])))
+            out[m] = out.get(m, sp.Integer(0)) + c
+        return dict((m, rstr(c)) for m, c in out.items() if c != 0)
+    lhs, rhs = E.lhs, E.rhs
+    return {'lhs_y': coeffs(lhs, 'y'), 'lhs_x': coeffs(lhs, 'x'), 'rhs_y': coeffs(rhs, 'y'), 'rhs_x': coeffs(rhs, 'x')}
+
+
 # ------------------------------------------------------------------------------
 def mkx(case):
     from lcapy.discretetime import seq, nexpr
@@ -266,7 +284,7 @@ def run(case):
     from lcapy.discretetime import seq, nexpr, zexpr, kexpr
     from lcapy.sym import nsym, zsym, ksym
     kind = case['kind']
-    if kind in ('response', 'tf', 'de', 'impulse', 'zic', 'step'):
+    if kind in ('response', 'tf', 'de', 'impulse', 'zic', 'step', 'invtf', 'detf', 'freqresp'):
         b = [R(v) for v in case['b']]
         a = [R(v) for v in case['a']]
         fil = DLTIFilter(b, a)
@@ -284,22 +302,7 @@ def run(case):
         v = to_rational(H.subs(zsym, R(case['z'])))
         return {'val': rstr(v)}
     if kind == 'de':
-        E = fil.difference_equation().sympy
-        def coeffs(e, fname):
-            out = {}
-            for t in sp.Add.make_args(sp.expand(e)):
-                if t == 0:
-                    continue
-                c, rest = t.as_coeff_Mul()
-                if not (rest.is_Function and rest.func.__name__ in ('x', 'y')):
-                    raise ValueError('unexpected term %s' % t)
-                if rest.func.__name__ != fname:
-                    continue
-                m = str(int(sp.expand(nsym - rest.args[0])))
-                out[m] = out.get(m, sp.Integer(0)) + c
-            return dict((m, rstr(c)) for m, c in out.items() if c != 0)
-        lhs, rhs = E.lhs, E.rhs
-        return {'lhs_y': coeffs(lhs, 'y'), 'lhs_x': coeffs(lhs, 'x'), 'rhs_y': coeffs(rhs, 'y'), 'rhs_x': coeffs(rhs, 'x')}
+        return de_coeffs(fil.difference_equation().sympy, nsym)
     if kind == 'impulse':
         h = fil.impulse_response().sympy
         vals = []
@@ -307,6 +310,47 @@ def run(case):
             v = expr_at_n(h, nsym, m)
             vals.append(None if v is None else rstr(v))
         return {'vals': vals, 'expr': str(h)[:300]}
+    if kind == 'invtf':
+        H = fil.inverse().transfer_function().sympy
+        return {'val': rstr(to_rational(H.subs(zsym, R(case['z']))))}
+    if kind == 'detf':
+        H = fil.difference_equation().transfer_function().sympy
+        return {'val': rstr(to_rational(sp.cancel(H).subs(zsym, R(case['z']))))}
+    if kind == 'freqresp':
+        from lcapy.sym import fsym, dt as dtsym
+        FR = fil.frequency_response().sympy
+        w = sp.Symbol('w_')
+        c_, s_ = R(case['e'][0]), R(case['e'][1])
+        V = FR.rewrite(sp.exp).subs(fsym, -sp.I * sp.log(w) / (sp.pi * dtsym))       # exp(j pi f dt) = w
+        V = sp.powsimp(sp.expand_power_exp(sp.simplify(V)), force=True)
+        if V.has(sp.log) or V.has(sp.exp) or V.free_symbols - {w}:
+            return {'inexact': str(V)[:200]}
+        val = sp.simplify(sp.expand(sp.together(V).subs(w, c_ + sp.I * s_), complex=True))
+        re_, im_ = to_rational(sp.re(val)), to_rational(sp.im(val))
+        if re_ is None or im_ is None:
+            return {'inexact': str(val)[:200]}
+        return {'val': [rstr(re_), rstr(im_)], 'expr': str(FR)[:200], 'ma': bool(fil.is_moving_average)}
+    if kind == 'zpk':
+        Z = [R(v) for v in case['Z']]
+        P = [R(v) for v in case['P']]
+        fil = DLTIFilter.from_ZPK(Z, P, R(case['K']))
+        H = fil.transfer_function().sympy
+        return {'val': rstr(to_rational(H.subs(zsym, R(case['z'])))), 'b': [rstr(to_rational(v.sympy)) for v in fil.b],
+                'a': [rstr(to_rational(v.sympy)) for v in fil.a]}
+    if kind in ('zde', 'asab'):
+        H = zexpr(case['H'])
+        from lcapy.transfer import transfer
+        N_, D_ = transfer(H).as_N_D()
+        out = {'nn': [rstr(to_rational(getattr(c, 'sympy', c))) for c in N_.coeffs()],
+               'dn': [rstr(to_rational(getattr(c, 'sympy', c))) for c in D_.coeffs()]}
+        if kind == 'asab':
+            a_, b_ = H.as_ab()
+            out['a'] = [rstr(to_rational(getattr(v, 'sympy', v))) for v in a_]
+            out['b'] = [rstr(to_rational(getattr(v, 'sympy', v))) for v in b_]
+            return out
+        E = H.difference_equation().sympy
+        out.update(de_coeffs(E, nsym))
+        return out
     if kind == 'step':
         g = fil.step_response().sympy
         vals = []
